@@ -32,6 +32,33 @@ Proof.
   intros X. apply Hn. apply in_map_iff in X. destruct X as [y [E Hy]]. apply filter_In in Hy. apply in_map_iff. exists y. tauto.
 Qed.
 
+Lemma exists_or_forall {A} (P : A -> Prop) (l : list A) : (forall x, P x \/ ~ P x) ->
+  (exists x, In x l /\ P x) \/ (forall x, In x l -> ~ P x).
+Proof.
+  intros Hd. induction l as [|y l IH]; [right; intros x []|].
+  destruct (Hd y) as [Hy|Hy]; [left; exists y; split; [left; reflexivity|exact Hy]|].
+  destruct IH as [[x [Hx Px]]|IH]; [left; exists x; split; [right; exact Hx|exact Px]|right].
+  intros x [<-|Hx]; [exact Hy|exact (IH x Hx)].
+Qed.
+
+Lemma offset_of_in g l off : offset_of g l = Some off -> exists gt, nth_error l off = Some gt /\ fst gt = g.
+Proof.
+  revert off. induction l as [|[g' x] l IH]; intros off H; simpl in H; [discriminate|].
+  destruct (Nat.eqb g g') eqn:E.
+  - injection H as <-. apply Nat.eqb_eq in E. exists (g', x). auto.
+  - destruct (offset_of g l) as [o|] eqn:O; simpl in H; [|discriminate]. injection H as <-. destruct (IH o eq_refl) as [gt [Hn Hg]]. exists gt. auto.
+Qed.
+
+Lemma offset_of_nth l : NoDup (map fst l) -> forall off gt, nth_error l off = Some gt -> offset_of (fst gt) l = Some off.
+Proof.
+  induction l as [|[g' x] l IH]; intros Hd off gt Hn; [destruct off; discriminate|]. inversion Hd as [|? ? Hni Hd']; subst.
+  destruct off as [|off]; simpl in Hn.
+  - injection Hn as <-. simpl. rewrite Nat.eqb_refl. reflexivity.
+  - simpl. destruct (Nat.eqb (fst gt) g') eqn:E.
+    + apply Nat.eqb_eq in E. exfalso. apply Hni. rewrite <- E. apply in_map. exact (nth_error_In _ _ Hn).
+    + rewrite (IH Hd' off gt Hn). reflexivity.
+Qed.
+
 Lemma max_exists {A} (f : A -> nat) (l : list A) : l <> [] -> exists x, In x l /\ forall y, In y l -> f y <= f x.
 Proof.
   induction l as [|a l IH]; intros H; [contradiction|]. destruct l as [|b l].
@@ -41,33 +68,57 @@ Proof.
     + exists a. split; [left; reflexivity|]. intros y [<-|Hy]; [lia|]. specialize (Hm y Hy). lia.
 Qed.
 
+Lemma full_row (row : list (option key)) m : List.length row <= m -> (forall q, q < m -> exists k, nth q row None = Some k) ->
+  exists ks, row = map Some ks /\ List.length ks = m.
+Proof.
+  intros Hl Hs. assert (Hlen : List.length row = m).
+  { apply Nat.le_antisymm; [exact Hl|]. destruct m as [|m]; [lia|]. destruct (Hs m ltac:(lia)) as [k Hk].
+    destruct (Nat.le_gt_cases (List.length row) m) as [X|X]; [rewrite nth_overflow in Hk by exact X; discriminate|lia]. }
+  destruct (all_some row) as [ks Hks]; [intros q Hq; apply Hs; lia|]. exists ks. split; [exact Hks|]. rewrite <- Hlen, Hks, map_length. reflexivity.
+Qed.
+
+Lemma traverse_pointwise {A P} (f : key -> option A) (R : A -> P -> Prop) : forall (ks : list key) (ps : list P), List.length ks = List.length ps ->
+  (forall q k p, nth_error ks q = Some k -> nth_error ps q = Some p -> exists x, f k = Some x /\ R x p) ->
+  exists xs, traverse f ks = Some xs /\ Forall2 R xs ps.
+Proof.
+  induction ks as [|k ks IH]; intros [|p ps] Hlen Hx; simpl in Hlen; try discriminate.
+  - exists []. split; [reflexivity|constructor].
+  - destruct (Hx 0 k p eq_refl eq_refl) as [x [Hk Hr]]. destruct (IH ps ltac:(lia)) as [xs [Ht Hf]].
+    + intros q k' p' H1 H2. exact (Hx (Datatypes.S q) k' p' H1 H2).
+    + exists (x :: xs). split; [simpl; rewrite Hk; simpl; rewrite Ht; reflexivity|constructor; assumption].
+Qed.
+
 Section Emit.
 Variable a : assets.
 Variable nodes : list node.
 Hypothesis wf : WF a nodes.
-Variable S : list nat.
+Variable S0 : list nat.
 Variable T : tbl.
 Variable B : blocks.
-Hypothesis H : Inv a nodes S (allp S) T B.
-Hypothesis Hall : forall i nd, nth_error nodes i = Some nd -> In i S.
+Hypothesis H : Inv a nodes S0 S0 S0 (allp S0) T B.
+Hypothesis Hall : forall i nd, nth_error nodes i = Some nd -> In i S0.
+Hypothesis Hcm : forall l, a = Some l ->
+  (forall gt, In gt l -> exists k ndk, nth_error nodes k = Some ndk /\ is_train ndk = true /\ ngid ndk = fst gt)
+  \/ (forall gt k ndk, In gt l -> nth_error nodes k = Some ndk -> is_train ndk = true -> ngid ndk = fst gt -> False).
 
 Notation fop := (fop a nodes).
 Notation preset_of := (preset_of a nodes).
+Notation pers := (pers a).
 
 Lemma block_instr I ks k : In (I, ks) B -> In k ks -> instr_at T k = Some I.
 Proof.
-  intros Hb Hk. unfold instr_at. rewrite (v_idx _ _ _ _ _ _ H). apply in_assoc; [exact (v_keys _ _ _ _ _ _ H)|].
+  intros Hb Hk. unfold instr_at. rewrite (v_idx _ _ _ _ _ _ _ _ H). apply in_assoc; [exact (v_keys _ _ _ _ _ _ _ _ H)|].
   apply expand_in. exists ks. auto.
 Qed.
 
 Lemma instr_block k I : instr_at T k = Some I -> exists ks, In (I, ks) B /\ In k ks.
-Proof. unfold instr_at. rewrite (v_idx _ _ _ _ _ _ H). intros X. apply assoc_in in X. apply expand_in in X. exact X. Qed.
+Proof. unfold instr_at. rewrite (v_idx _ _ _ _ _ _ _ _ H). intros X. apply assoc_in in X. apply expand_in in X. exact X. Qed.
 
 Lemma same_id_same_block I ks I' ks' : In (I, ks) B -> In (I', ks') B -> iid I = iid I' -> (I, ks) = (I', ks').
 Proof.
   intros H1 H2 E. apply In_nth_error in H1. apply In_nth_error in H2. destruct H1 as [q1 H1], H2 as [q2 H2].
   assert (q1 = q2).
-  { apply (proj1 (NoDup_nth_error (map bid B)) (v_ids _ _ _ _ _ _ H)).
+  { apply (proj1 (NoDup_nth_error (map bid B)) (v_ids _ _ _ _ _ _ _ _ H)).
     - rewrite map_length. apply nth_error_Some. rewrite H1. discriminate.
     - rewrite (map_nth_error bid q1 B H1), (map_nth_error bid q2 B H2). unfold bid. simpl. rewrite E. reflexivity. }
   subst q2. rewrite H1 in H2. injection H2 as -> ->. reflexivity.
@@ -75,25 +126,28 @@ Qed.
 
 Lemma fun_block i nd : nth_error nodes i = Some nd -> exists F, In (F, fkeys i nd) B /\ iop F = fop i nd /\ instr_at T (KU i) = Some F.
 Proof.
-  intros Hn. destruct (v_fun _ _ _ _ _ _ H i (Hall i nd Hn)) as [nd' [F [Hn' [Hin Ho]]]]. rewrite Hn in Hn'. injection Hn' as <-.
+  intros Hn. destruct (v_fun _ _ _ _ _ _ _ _ H i (Hall i nd Hn)) as [nd' [F [Hn' [Hin Ho]]]]. rewrite Hn in Hn'. injection Hn' as <-.
   exists F. split; [exact Hin|]. split; [exact Ho|]. apply (block_instr F (fkeys i nd)); [exact Hin|left; reflexivity].
 Qed.
 
 Lemma blocks_nonempty b : In b B -> snd b <> [].
-Proof. intros Hb. destruct b as [I ks]. destruct (v_kinds _ _ _ _ _ _ H I ks Hb); simpl; discriminate. Qed.
+Proof. intros Hb. destruct b as [I ks]. destruct (v_kinds _ _ _ _ _ _ _ _ H I ks Hb); simpl; discriminate. Qed.
 
 Lemma groups_are_blocks : groupby (index T) None = B.
-Proof. rewrite (v_idx _ _ _ _ _ _ H). apply groupby_expand; [exact (v_ids _ _ _ _ _ _ H)|exact blocks_nonempty]. Qed.
+Proof. rewrite (v_idx _ _ _ _ _ _ _ _ H). apply groupby_expand; [exact (v_ids _ _ _ _ _ _ _ _ H)|exact blocks_nonempty]. Qed.
 
 (* ---- rows ------------------------------------------------------------------------------------------------ *)
 Lemma prow_other k : (forall j, k <> KU j) -> prow T k = [].
-Proof. intros Hk. destruct (prow T k) eqn:E; [reflexivity|]. destruct (v_prows _ _ _ _ _ _ H k) as [j [_ X]]; [rewrite E; discriminate|]. exfalso. exact (Hk j X). Qed.
+Proof. intros Hk. destruct (prow T k) eqn:E; [reflexivity|]. destruct (v_prows _ _ _ _ _ _ _ _ H k) as [j [_ X]]; [rewrite E; discriminate|]. exfalso. exact (Hk j X). Qed.
+
+Lemma linkage_nonku k : (forall j, k <> KU j) -> linkage T k = arow T k.
+Proof. intros Hk. unfold linkage. fold (prow T k). fold (arow T k). rewrite (prow_other k Hk). reflexivity. Qed.
 
 Lemma arow_full j nd : nth_error nodes j = Some nd ->
   exists ks, arow T (KU j) = map Some ks /\ List.length ks = List.length (ports nd)
     /\ forall q ip, nth_error (ports nd) q = Some ip -> exists k, nth_error ks q = Some k /\ srckey nodes T B ip k.
 Proof.
-  intros Hn. destruct (v_rows _ _ _ _ _ _ H j nd Hn) as [Hl Hr].
+  intros Hn. destruct (v_rows _ _ _ _ _ _ _ _ H j nd Hn) as [Hl Hr].
   assert (Hsome : forall q ip, nth_error (ports nd) q = Some ip -> exists k, aget T (KU j) q = Some k /\ srckey nodes T B ip k).
   { intros q ip Hip. apply (proj1 (Hr q ip Hip)). destruct (w_ports a nodes wf j nd q ip Hn Hip) as [_ [ndi [Hni _]]]. exact (Hall _ _ Hni). }
   assert (Hlen : List.length (arow T (KU j)) = List.length (ports nd)).
@@ -113,29 +167,22 @@ Proof.
 Qed.
 
 Lemma linkage_ku j nd : nth_error nodes j = Some nd ->
-  exists ks, linkage T (KU j) = map Some ((if preset_of j nd then [KG (ngid nd)] else []) ++ ks)
+  exists sks ks, linkage T (KU j) = map Some (sks ++ ks)
+    /\ (if preset_of j nd then exists sk, sks = [sk] /\ statekey_ok a B nd sk else sks = [])
     /\ arow T (KU j) = map Some ks
     /\ List.length ks = List.length (ports nd)
     /\ forall q ip, nth_error (ports nd) q = Some ip -> exists k, nth_error ks q = Some k /\ srckey nodes T B ip k.
 Proof.
-  intros Hn. destruct (arow_full j nd Hn) as [ks [Hks [Hl Hq]]]. exists ks. split; [|split; [exact Hks|split; assumption]].
-  unfold linkage. fold (prow T (KU j)). fold (arow T (KU j)). rewrite Hks, map_app. f_equal.
-  destruct (v_pref _ _ _ _ _ _ H j nd Hn) as [H1 H2]. destruct (preset_of j nd) eqn:Ep.
-  - rewrite (H1 (Hall j nd Hn) eq_refl). reflexivity.
-  - rewrite (H2 (or_intror eq_refl)). reflexivity.
+  intros Hn. destruct (arow_full j nd Hn) as [ks [Hks [Hl Hq]]].
+  destruct (v_pref _ _ _ _ _ _ _ _ H j nd Hn) as [H1 H2]. unfold linkage. fold (prow T (KU j)). fold (arow T (KU j)).
+  destruct (preset_of j nd) eqn:Ep.
+  - destruct (H1 (Hall j nd Hn) eq_refl) as [sk [Esk Hsk]]. exists [sk], ks. rewrite Esk, Hks, map_app. simpl.
+    split; [reflexivity|]. split; [eauto|]. split; [reflexivity|split; assumption].
+  - exists [], ks. rewrite (H2 (or_intror eq_refl)), Hks. simpl. split; [reflexivity|]. split; [reflexivity|]. split; [reflexivity|split; assumption].
 Qed.
 
 Lemma linkage_kg g : linkage T (KG g) = [].
-Proof.
-  unfold linkage. fold (prow T (KG g)). fold (arow T (KG g)).
-  rewrite (prow_other (KG g)) by (intros j; discriminate). rewrite (v_kgrow _ _ _ _ _ _ H g). reflexivity.
-Qed.
-
-Lemma linkage_getter c i : arow T (KF c) = [Some (KU i)] -> linkage T (KF c) = [Some (KU i)].
-Proof.
-  intros Hr. unfold linkage. fold (prow T (KF c)). fold (arow T (KF c)).
-  rewrite (prow_other (KF c)) by (intros j; discriminate). rewrite Hr. reflexivity.
-Qed.
+Proof. rewrite linkage_nonku by (intros j; discriminate). exact (v_kgrow _ _ _ _ _ _ _ _ H g). Qed.
 
 (* ---- Linkage.leaves ------------------------------------------------------------------------------------------ *)
 Lemma opt_key_in_spec k l : opt_key_in k l = true <-> In (Some k) l.
@@ -149,10 +196,10 @@ Definition lkeys : list key := map fst (absl T) ++ map fst (pref T).
 Definition lparents : list (option key) := flat_map snd (absl T) ++ flat_map (fun kv => map Some (snd kv)) (pref T).
 
 Lemma absl_entry k row : In (k, row) (absl T) -> row = arow T k.
-Proof. intros Hin. unfold arow. rewrite (in_assoc k row (absl T) (proj1 (v_anodup _ _ _ _ _ _ H)) Hin). reflexivity. Qed.
+Proof. intros Hin. unfold arow. rewrite (in_assoc k row (absl T) (proj1 (v_anodup _ _ _ _ _ _ _ _ H)) Hin). reflexivity. Qed.
 
 Lemma pref_entry k row : In (k, row) (pref T) -> row = prow T k.
-Proof. intros Hin. unfold prow. rewrite (in_assoc k row (pref T) (proj2 (v_anodup _ _ _ _ _ _ H)) Hin). reflexivity. Qed.
+Proof. intros Hin. unfold prow. rewrite (in_assoc k row (pref T) (proj2 (v_anodup _ _ _ _ _ _ _ _ H)) Hin). reflexivity. Qed.
 
 Lemma arow_parent k' e : In (Some e) (arow T k') -> In (Some e) lparents.
 Proof.
@@ -163,52 +210,104 @@ Qed.
 Lemma lkey_in_index k : In k lkeys -> exists I, instr_at T k = Some I.
 Proof.
   intros Hk. apply in_app_or in Hk. destruct Hk as [Hk|Hk].
-  - pose proof (proj1 (v_rowsne _ _ _ _ _ _ H) k Hk) as Hne. destruct (v_arows _ _ _ _ _ _ H k Hne) as [[j [nd [-> Hn]]]|X].
+  - pose proof (proj1 (v_rowsne _ _ _ _ _ _ _ _ H) k Hk) as Hne. destruct (v_arows _ _ _ _ _ _ _ _ H k Hne) as [[j [nd [-> Hn]]]|X].
     + destruct (fun_block j nd Hn) as [F [_ [_ X]]]. exists F. exact X.
-    + unfold instr_at. rewrite (v_idx _ _ _ _ _ _ H). destruct (assoc k (expand B)) eqn:E; [eauto|]. apply assoc_none in E. contradiction.
-  - pose proof (proj2 (v_rowsne _ _ _ _ _ _ H) k Hk) as Hne. destruct (v_prows _ _ _ _ _ _ H k Hne) as [j [Hj ->]].
-    destruct (v_fun _ _ _ _ _ _ H j Hj) as [nd [F [Hn [Hin _]]]]. exists F. apply (block_instr F (fkeys j nd)); [exact Hin|left; reflexivity].
+    + unfold instr_at. rewrite (v_idx _ _ _ _ _ _ _ _ H). destruct (assoc k (expand B)) eqn:E; [eauto|]. apply assoc_none in E. contradiction.
+  - pose proof (proj2 (v_rowsne _ _ _ _ _ _ _ _ H) k Hk) as Hne. destruct (v_prows _ _ _ _ _ _ _ _ H k Hne) as [j [Hj ->]].
+    destruct (v_fun _ _ _ _ _ _ _ _ H j Hj) as [nd [F [Hn [Hin _]]]]. exists F. apply (block_instr F (fkeys j nd)); [exact Hin|left; reflexivity].
 Qed.
+
+Definition is_ck (c : nat) : bool := match committer T with Some (KF c') => Nat.eqb c c' | _ => false end.
 
 Definition rankf (k : key) : nat :=
   match k with
   | KU j => 2 * j + 1
-  | KF c => match arow T (KF c) with [Some (KU i)] => 2 * i + 2 | _ => 0 end
+  | KF c => if is_ck c then 2 * List.length nodes + 3
+            else match arow T (KF c) with [Some (KU i)] => 2 * i + 2 | _ => 0 end
   | KG _ => 0
   end.
 
 Lemma lkey_has_row k : In k lkeys -> arow T k <> [] \/ prow T k <> [].
 Proof.
-  intros Hk. apply in_app_or in Hk. destruct Hk as [Hk|Hk]; [left; exact (proj1 (v_rowsne _ _ _ _ _ _ H) k Hk)|right; exact (proj2 (v_rowsne _ _ _ _ _ _ H) k Hk)].
+  intros Hk. apply in_app_or in Hk. destruct Hk as [Hk|Hk]; [left; exact (proj1 (v_rowsne _ _ _ _ _ _ _ _ H) k Hk)|right; exact (proj2 (v_rowsne _ _ _ _ _ _ _ _ H) k Hk)].
 Qed.
 
+Lemma norow_not_lkey k : arow T k = [] -> (forall j, k <> KU j) -> ~ In k lkeys.
+Proof. intros Ha Hk X. destruct (lkey_has_row _ X) as [Y|Y]; [exact (Y Ha)|apply Y; apply prow_other; exact Hk]. Qed.
+
 Lemma kg_not_lkey g : ~ In (KG g) lkeys.
+Proof. apply norow_not_lkey; [exact (v_kgrow _ _ _ _ _ _ _ _ H g)|intros j; discriminate]. Qed.
+
+Lemma block_key_unique I ks I' ks' k : In (I, ks) B -> In (I', ks') B -> In k ks -> In k ks' -> I = I'.
+Proof. intros H1 H2 K1 K2. pose proof (block_instr I ks k H1 K1) as E1. pose proof (block_instr I' ks' k H2 K2) as E2. congruence. Qed.
+
+Lemma not_ck c I : In (I, [KF c]) B -> iop I <> OCommitter -> is_ck c = false.
 Proof.
-  intros X. destruct (lkey_has_row _ X) as [Y|Y].
-  - apply Y. exact (v_kgrow _ _ _ _ _ _ H g).
-  - apply Y. apply prow_other. intros j. discriminate.
+  intros Hb Ho. unfold is_ck. destruct (committer T) as [[j|g|c']|] eqn:Ec; try reflexivity.
+  destruct (Nat.eqb c c') eqn:E; [|reflexivity]. apply Nat.eqb_eq in E. subst c'. exfalso.
+  destruct (p_some _ _ _ _ _ _ (v_pers _ _ _ _ _ _ _ _ H) _ Ec) as [c2 [C [E2 [HC HCo]]]]. injection E2 as <-.
+  apply Ho. rewrite (block_key_unique I [KF c] C [KF c] (KF c) Hb HC (or_introl eq_refl) (or_introl eq_refl)). exact HCo.
+Qed.
+
+Lemma unary_rank c I i : In (I, [KF c]) B -> iop I <> OCommitter -> arow T (KF c) = [Some (KU i)] -> rankf (KF c) = 2 * i + 2.
+Proof. intros Hb Ho Hr. simpl. rewrite (not_ck c I Hb Ho), Hr. reflexivity. Qed.
+
+Lemma ku_entry_rank j nd e : nth_error nodes j = Some nd -> In (Some e) (arow T (KU j)) -> rankf e < 2 * j + 1.
+Proof.
+  intros Hn Hin. destruct (arow_full j nd Hn) as [ks [Hks [Hl Hq]]]. rewrite Hks in Hin. apply in_map_iff in Hin. destruct Hin as [e' [E He]].
+  injection E as ->. apply In_nth_error in He. destruct He as [q He].
+  destruct (nth_error (ports nd) q) as [ip|] eqn:Ep; [|apply nth_error_None in Ep; assert (q < List.length ks) by (apply nth_error_Some; rewrite He; discriminate); lia].
+  destruct (Hq q ip Ep) as [k [Hk Hs]]. rewrite He in Hk. injection Hk as <-.
+  destruct (w_ports a nodes wf j nd q ip Hn Ep) as [Hlt _].
+  destruct Hs as [ndi [Hni [[_ ->]|[_ [c [I [-> [HinB [Ho Hr]]]]]]]]]; [simpl; lia|].
+  rewrite (unary_rank c I (fst ip) HinB) by (try exact Hr; rewrite Ho; discriminate). lia.
+Qed.
+
+Lemma comm_entries ck l off e : committer T = Some ck -> a = Some l -> aget T ck off = Some e ->
+  exists i nd, nth_error nodes i = Some nd /\ strain nd && pers nd = true /\ offset a (ngid nd) = Some off /\ dumper_of T B i e.
+Proof.
+  intros Hck Hl He. destruct (p_crow _ _ _ _ _ _ (v_pers _ _ _ _ _ _ _ _ H) ck l Hck Hl) as [_ Hrow]. destruct (Hrow off) as [R1 R2].
+  destruct (exists_or_forall (fun i => exists nd, nth_error nodes i = Some nd /\ strain nd && pers nd = true /\ offset a (ngid nd) = Some off) S0) as [[i [Hi [nd [Hn [Hsp Ho]]]]]|Hno].
+  - intros i. destruct (nth_error nodes i) as [nd|]; [|right; intros [nd [X _]]; discriminate].
+    destruct (strain nd && pers nd) eqn:E1; [|right; intros [nd' [X [Y _]]]; injection X as <-; congruence].
+    destruct (offset a (ngid nd)) as [o|] eqn:E2; [|right; intros [nd' [X [_ Y]]]; injection X as <-; congruence].
+    destruct (Nat.eq_dec o off) as [->|Hne]; [left; exists nd; auto|right; intros [nd' [X [_ Y]]]; injection X as <-; congruence].
+  - destruct (R1 i nd Hi Hn Hsp Ho) as [k [Hk Hd]]. rewrite He in Hk. injection Hk as <-. exists i, nd. auto.
+  - rewrite R2 in He; [discriminate|]. intros i nd Hi Hn Hsp Ho. apply (Hno i Hi). exists nd. auto.
 Qed.
 
 Lemma entry_rank k' e : arow T k' <> [] -> In (Some e) (arow T k') -> rankf e < rankf k'.
 Proof.
-  intros Hne Hin. destruct (v_arows _ _ _ _ _ _ H k' Hne) as [[j [nd [-> Hn]]]|X].
-  - destruct (arow_full j nd Hn) as [ks [Hks [Hl Hq]]]. rewrite Hks in Hin. apply in_map_iff in Hin. destruct Hin as [e' [E He]].
-    injection E as ->. apply In_nth_error in He. destruct He as [q He].
-    destruct (nth_error (ports nd) q) as [ip|] eqn:Ep; [|apply nth_error_None in Ep; assert (q < List.length ks) by (apply nth_error_Some; rewrite He; discriminate); lia].
-    destruct (Hq q ip Ep) as [k [Hk Hs]]. rewrite He in Hk. injection Hk as <-.
-    destruct (w_ports a nodes wf j nd q ip Hn Ep) as [Hlt _].
-    destruct Hs as [ndi [Hni [[_ ->]|[_ [c [I [-> [_ [_ Hr]]]]]]]]]; simpl; [lia|rewrite Hr; lia].
+  intros Hne Hin. destruct (v_arows _ _ _ _ _ _ _ _ H k' Hne) as [[j [nd [-> Hn]]]|X].
+  - simpl. exact (ku_entry_rank j nd e Hn Hin).
   - apply expand_keys in X. destruct X as [[I ks] [Hb Hk]]. simpl in Hk.
-    destruct (v_kinds _ _ _ _ _ _ H I ks Hb) as [i nd I0 Hi Hn Ho|i nd p c I0 Hi Hn Ht Hz Hp Ho Hr].
-    + unfold fkeys in Hk. destruct Hk as [<-|Hk].
-      * destruct (arow_full i nd Hn) as [ks' [Hks [Hl Hq]]]. rewrite Hks in Hin. apply in_map_iff in Hin. destruct Hin as [e' [E He]].
-        injection E as ->. apply In_nth_error in He. destruct He as [q He].
-        destruct (nth_error (ports nd) q) as [ip|] eqn:Ep; [|apply nth_error_None in Ep; assert (q < List.length ks') by (apply nth_error_Some; rewrite He; discriminate); lia].
-        destruct (Hq q ip Ep) as [k [Hk' Hs]]. rewrite He in Hk'. injection Hk' as <-.
-        destruct (w_ports a nodes wf i nd q ip Hn Ep) as [Hlt _].
-        destruct Hs as [ndi [Hni [[_ ->]|[_ [c [I [-> [_ [_ Hr]]]]]]]]]; simpl; [lia|rewrite Hr; lia].
-      * destruct (strain nd); [|destruct Hk]. destruct Hk as [<-|[]]. exfalso. apply Hne. exact (v_kgrow _ _ _ _ _ _ H (ngid nd)).
-    + destruct Hk as [<-|[]]. rewrite Hr in Hin. destruct Hin as [E|[]]. injection E as <-. simpl. rewrite Hr. lia.
+    destruct (v_kinds _ _ _ _ _ _ _ _ H I ks Hb) as [i nd I0 Hi Hn Ho|i nd p c I0 Hi Hn Ht Hz Hp Ho Hr|g k I0 Ho Hp Hr Hkk|i nd c I0 Hn Hsp Ho Hr|c I0 Ho Hck].
+    + unfold fkeys in Hk. destruct Hk as [<-|Hk]; [simpl; exact (ku_entry_rank i nd e Hn Hin)|].
+      destruct (strain nd); [|destruct Hk]. destruct Hk as [<-|[]]. exfalso. apply Hne. exact (v_kgrow _ _ _ _ _ _ _ _ H (ngid nd)).
+    + destruct Hk as [<-|[]]. rewrite (unary_rank c I0 i Hb) by (try exact Hr; rewrite Ho; discriminate). rewrite Hr in Hin. destruct Hin as [E|[]]. injection E as <-. simpl. lia.
+    + destruct Hk as [<-|[]]. exfalso. exact (Hne Hr).
+    + destruct Hk as [<-|[]]. rewrite (unary_rank c I0 i Hb) by (try exact Hr; rewrite Ho; discriminate). rewrite Hr in Hin. destruct Hin as [E|[]]. injection E as <-. simpl. lia.
+    + destruct Hk as [<-|[]]. apply In_nth_error in Hin. destruct Hin as [off Hoff].
+      assert (Hag : aget T (KF c) off = Some e) by (unfold aget; apply nth_error_nth with (d := None) in Hoff; exact Hoff).
+      destruct (p_conv _ _ _ _ _ _ (v_pers _ _ _ _ _ _ _ _ H) _ Hck) as [i0 [nd0 [_ [Hn0 Hsp0]]]].
+      assert (Hpa : exists l, a = Some l).
+      { apply andb_prop in Hsp0. destruct Hsp0 as [_ Hp0]. unfold C01Inv.pers in Hp0. apply andb_prop in Hp0. destruct Hp0 as [_ Hp0].
+        unfold persistent in Hp0. destruct a as [l|]; [eauto|discriminate]. }
+      destruct Hpa as [l Hl]. destruct (comm_entries (KF c) l off e Hck Hl Hag) as [i [nd [Hn [Hsp [Hoffs [cd [D [-> [HD [HDo HDr]]]]]]]]]].
+      rewrite (unary_rank cd D i HD) by (try exact HDr; rewrite HDo; discriminate).
+      assert (Hil : i < List.length nodes) by (apply nth_error_Some; rewrite Hn; discriminate).
+      simpl. unfold is_ck. rewrite Hck, Nat.eqb_refl. lia.
+Qed.
+
+Lemma loader_row g k : loader_at B g k -> arow T k = [] /\ (forall j, k <> KU j).
+Proof.
+  intros [I [Hin Ho]]. remember [k] as ks eqn:Eks.
+  destruct (v_kinds _ _ _ _ _ _ _ _ H I ks Hin) as [i1 nd1 I1 Hi1 Hn1 Ho1|i1 nd1 p1 c1 I1 Hi1 Hn1 Ht1 Hz1 Hp1 Ho1 Hr1|g1 k1 I1 Ho1 Hp1 Hr1 Hk1|i1 nd1 c1 I1 Hn1 Hsp1 Ho1 Hr1|c1 I1 Ho1 Hck1].
+  - unfold C01Inv.fop in Ho1. rewrite Ho in Ho1. discriminate.
+  - rewrite Ho in Ho1. discriminate.
+  - injection Eks as ->. split; [exact Hr1|]. intros j E. subst k. destruct Hk1 as [X|[c X]]; discriminate.
+  - rewrite Ho in Ho1. discriminate.
+  - rewrite Ho in Ho1. discriminate.
 Qed.
 
 Lemma leaves_ok : exists lv, leaves T = Some lv /\ forall k, In k lv -> In k lkeys /\ ~ In (Some k) lparents.
@@ -231,9 +330,12 @@ Proof.
         - apply in_flat_map in X. destruct X as [[k' row] [Hin Hrow]]. simpl in Hrow. apply in_map_iff in Hrow. destruct Hrow as [e [E He]].
           injection E as ->. pose proof (pref_entry k' row Hin) as ->.
           assert (Hne' : prow T k' <> []) by (intros Y; rewrite Y in He; destruct He).
-          destruct (v_prows _ _ _ _ _ _ H k' Hne') as [j [Hj ->]]. destruct (v_fun _ _ _ _ _ _ H j Hj) as [nd [_ [Hn _]]].
-          destruct (v_pref _ _ _ _ _ _ H j nd Hn) as [H1 H2]. destruct (preset_of j nd) eqn:Ep.
-          + rewrite (H1 Hj eq_refl) in He. destruct He as [<-|[]]. exact (kg_not_lkey _ Hkm).
+          destruct (v_prows _ _ _ _ _ _ _ _ H k' Hne') as [j [Hj ->]]. destruct (v_fun _ _ _ _ _ _ _ _ H j Hj) as [nd [_ [Hn _]]].
+          destruct (v_pref _ _ _ _ _ _ _ _ H j nd Hn) as [H1 H2]. destruct (preset_of j nd) eqn:Ep.
+          + destruct (H1 Hj eq_refl) as [sk [Esk Hsk]]. rewrite Esk in He. destruct He as [<-|[]].
+            unfold C01Inv.statekey_ok in Hsk. destruct (strain nd && pers nd).
+            * destruct Hsk as [_ Hlo]. destruct (loader_row _ _ Hlo) as [Hr1 Hnk]. exact (norow_not_lkey _ Hr1 Hnk Hkm).
+            * subst sk. exact (kg_not_lkey _ Hkm).
           + rewrite (H2 (or_intror eq_refl)) in He. destruct He. }
       intros Y. rewrite Y in H0. destruct H0. }
     exists children. split; [|exact Hch]. destruct children; [contradiction|reflexivity].
@@ -252,7 +354,16 @@ Definition rsrc (x : instr) (ip : nat * nat) : Prop :=
   exists ndj Fj, nth_error nodes (fst ip) = Some ndj /\ fun_of (fst ip) Fj
     /\ ((nszout ndj = 1 /\ x = Fj) \/
         (nszout ndj <> 1 /\ iop x = OGetter (snd ip) /\ exists c, In (x, [KF c]) B /\ arow T (KF c) = [Some (KU (fst ip))]
-                          /\ exists k', arow T k' <> [] /\ In (Some (KF c)) (arow T k'))).
+                          /\ exists k', In (Some (KF c)) (arow T k'))).
+
+Definition sres (i : nat) (nd : node) (x : instr) : Prop :=
+  (exists k ndk, nth_error nodes k = Some ndk /\ is_train ndk = true /\ ngid ndk = ngid nd /\ k <> i /\ fun_of k x)
+  \/ ((forall k ndk, nth_error nodes k = Some ndk -> is_train ndk = true -> ngid ndk = ngid nd -> k = i)
+      /\ pers nd = true /\ iop x = OLoader (ngid nd) /\ exists kx, In (x, [kx]) B /\ arow T kx = [] /\ forall j, kx <> KU j).
+
+Definition dres (d : instr) (gt : nat * term) : Prop :=
+  iop d = ODumper /\ exists k ndk Fk cd, In (d, [KF cd]) B /\ arow T (KF cd) = [Some (KU k)] /\ nth_error nodes k = Some ndk
+    /\ is_train ndk = true /\ ngid ndk = fst gt /\ fun_of k Fk.
 
 Lemma resolve_src j nd q ip k : nth_error nodes j = Some nd -> nth_error (ports nd) q = Some ip ->
   In (Some k) (arow T (KU j)) -> srckey nodes T B ip k -> exists x, assoc k (index T) = Some x /\ rsrc x ip.
@@ -263,64 +374,122 @@ Proof.
   - exists Fi. split; [exact Hati|]. exists ndi, Fi. split; [exact Hni|]. split; [exact HFo|]. left. auto.
   - exists I. split; [apply (block_instr I [KF c]); [exact HinB|left; reflexivity]|].
     exists ndi, Fi. split; [exact Hni|]. split; [exact HFo|]. right. split; [exact Hz|]. split; [exact Ho|].
-    exists c. split; [exact HinB|]. split; [exact Hr|]. exists (KU j). split; [intros Y; rewrite Y in Hin; destruct Hin|exact Hin].
+    exists c. split; [exact HinB|]. split; [exact Hr|]. exists (KU j). exact Hin.
 Qed.
 
-Lemma resolve_inputs j nd : nth_error nodes j = Some nd -> forall ks, arow T (KU j) = map Some ks ->
-  List.length ks = List.length (ports nd) ->
-  (forall q ip, nth_error (ports nd) q = Some ip -> exists k, nth_error ks q = Some k /\ srckey nodes T B ip k) ->
-  exists iargs, traverse (fun k => assoc k (index T)) ks = Some iargs /\ Forall2 rsrc iargs (ports nd).
+Lemma resolve_state i nd sk : nth_error nodes i = Some nd -> preset_of i nd = true -> statekey_ok a B nd sk ->
+  exists x, assoc sk (index T) = Some x /\ sres i nd x.
 Proof.
-  intros Hn ks Hrow Hl Hq.
-  assert (G : forall (ks0 : list key) (ps : list (nat * nat)), List.length ks0 = List.length ps ->
-            (forall q k ip, nth_error ks0 q = Some k -> nth_error ps q = Some ip -> exists x, assoc k (index T) = Some x /\ rsrc x ip) ->
-            exists iargs, traverse (fun k => assoc k (index T)) ks0 = Some iargs /\ Forall2 rsrc iargs ps).
-  { induction ks0 as [|k ks0 IH]; intros [|ip ps] Hlen Hx; simpl in Hlen; try discriminate.
-    - exists []. split; [reflexivity|constructor].
-    - destruct (Hx 0 k ip eq_refl eq_refl) as [x [Hk Hr]]. destruct (IH ps ltac:(lia)) as [iargs [Ht Hf]].
-      + intros q k' ip' H1 H2. exact (Hx (Datatypes.S q) k' ip' H1 H2).
-      + exists (x :: iargs). split; [simpl; rewrite Hk; simpl; rewrite Ht; reflexivity|constructor; assumption]. }
-  apply G; [exact Hl|]. intros q k ip Hk Hip. destruct (Hq q ip Hip) as [k' [Hk' Hs]]. rewrite Hk in Hk'. injection Hk' as <-.
-  apply (resolve_src j nd q ip k Hn Hip); [rewrite Hrow; apply in_map; apply (nth_error_In _ _ Hk)|exact Hs].
+  intros Hn Hpre Hsk. unfold C01Inv.statekey_ok in Hsk. destruct (strain nd && pers nd) eqn:Esp.
+  - destruct Hsk as [_ Hlo]. pose proof (loader_row _ _ Hlo) as [Hr Hnk]. destruct Hlo as [I [HinB Ho]].
+    exists I. split; [apply (block_instr I [sk]); [exact HinB|left; reflexivity]|]. right.
+    apply andb_prop in Esp. destruct Esp as [Es Ep]. pose proof (strain_train nd Es) as Et. split.
+    + intros k ndk Hnk' Htk Hg. exact (w_unique a nodes wf k ndk i nd Hnk' Hn Htk Et Hg).
+    + split; [exact Ep|]. split; [exact Ho|]. exists sk. auto.
+  - subst sk. destruct (trainer nodes (List.length nodes) (ngid nd)) as [k|] eqn:Etr.
+    + destruct (trainer_some nodes (ngid nd) _ k Etr) as [_ [ndk [Hnk [Hg Htk]]]].
+      assert (Hsk : strain ndk = true) by (unfold strain; rewrite Htk, (w_train_stateful a nodes wf k ndk Hnk Htk); reflexivity).
+      destruct (fun_block k ndk Hnk) as [Fk [HFk [Hok _]]].
+      assert (Hkg : assoc (KG (ngid nd)) (index T) = Some Fk).
+      { apply (block_instr Fk (fkeys k ndk) (KG (ngid nd)) HFk). unfold fkeys. rewrite Hsk, Hg. right. left. reflexivity. }
+      exists Fk. split; [exact Hkg|]. left. exists k, ndk. repeat split; auto; [|exists ndk; auto].
+      intros ->. rewrite Hn in Hnk. injection Hnk as <-.
+      (* i itself is the trainer: not persistent (Esp), so preset comes from another trained member - impossible *)
+      rewrite Hsk in Esp. simpl in Esp. unfold C01Inv.preset_of in Hpre. rewrite Esp in Hpre. simpl in Hpre.
+      apply andb_prop in Hpre. destruct Hpre as [_ Hder]. apply (derived_spec nodes i nd Hn) in Hder.
+      destruct Hder as [_ [k' [ndk' [Hne [Hnk' [Hg' Htk']]]]]]. apply Hne. exact (w_unique a nodes wf k' ndk' i nd Hnk' Hn Htk' Htk Hg').
+    + assert (Hnone : forall k ndk, nth_error nodes k = Some ndk -> is_train ndk = true -> ngid ndk = ngid nd -> False).
+      { intros k ndk Hnk Htk Hg. assert (Hk : k < List.length nodes) by (apply nth_error_Some; rewrite Hnk; discriminate).
+        rewrite (trainer_none nodes (ngid nd) _ Etr k ndk Hk Hnk Hg) in Htk. discriminate. }
+      assert (Hder : derived nodes i nd = false).
+      { destruct (derived nodes i nd) eqn:E; [|reflexivity]. apply (derived_spec nodes i nd Hn) in E. destruct E as [_ [k [ndk [_ [Hnk [Hg Htk]]]]]].
+        exfalso. exact (Hnone k ndk Hnk Htk Hg). }
+      assert (Hp : pers nd = true).
+      { unfold C01Inv.preset_of in Hpre. rewrite Hder, orb_false_r in Hpre. apply andb_prop in Hpre. tauto. }
+      destruct (p_load _ _ _ _ _ _ (v_pers _ _ _ _ _ _ _ _ H) i nd (Hall i nd Hn) Hn Hp) as [I [HinB Ho]].
+      { intros [k [ndk [_ [Hnk [Htk Hg]]]]]. exact (Hnone k ndk Hnk Htk Hg). }
+      pose proof (loader_row (ngid nd) (KG (ngid nd)) (ex_intro _ I (conj HinB Ho))) as [Hr Hnk].
+      exists I. split; [apply (block_instr I [KG (ngid nd)]); [exact HinB|left; reflexivity]|]. right. split.
+      * intros k ndk Hnk' Htk Hg. exfalso. exact (Hnone k ndk Hnk' Htk Hg).
+      * split; [exact Hp|]. split; [exact Ho|]. exists (KG (ngid nd)). auto.
 Qed.
 
 Lemma fblock_fun i nd F : nth_error nodes i = Some nd -> In (F, fkeys i nd) B ->
   exists sargs iargs, fblock (F, fkeys i nd) = Some (F, sargs ++ iargs)
-    /\ (if preset_of i nd
-        then exists k ndk Fk, sargs = [Fk] /\ nth_error nodes k = Some ndk /\ is_train ndk = true /\ ngid ndk = ngid nd /\ k <> i /\ fun_of k Fk
-        else sargs = [])
+    /\ (if preset_of i nd then exists x, sargs = [x] /\ sres i nd x else sargs = [])
     /\ Forall2 rsrc iargs (ports nd).
 Proof.
-  intros Hn HinB. destruct (linkage_ku i nd Hn) as [ks [Hlk [Hrow [Hl Hq]]]].
-  destruct (resolve_inputs i nd Hn ks Hrow Hl Hq) as [iargs [Hti Hfi]].
+  intros Hn HinB. destruct (linkage_ku i nd Hn) as [sks [ks [Hlk [Hsks [Hrow [Hl Hq]]]]]].
+  destruct (traverse_pointwise (fun k => assoc k (index T)) rsrc ks (ports nd) Hl) as [iargs [Hti Hfi]].
+  { intros q k ip Hk Hip. destruct (Hq q ip Hip) as [k' [Hk' Hs]]. rewrite Hk in Hk'. injection Hk' as <-.
+    apply (resolve_src i nd q ip k Hn Hip); [rewrite Hrow; apply in_map; apply (nth_error_In _ _ Hk)|exact Hs]. }
   assert (Hmerge : match map (linkage T) (fkeys i nd) with [] => None | x :: r => fold_opt merge r x end = Some (linkage T (KU i))).
   { unfold fkeys. destruct (strain nd); simpl; [rewrite linkage_kg, merge_nil_r|]; reflexivity. }
   unfold fblock. rewrite Hmerge. simpl. rewrite Hlk, traverse_resolve.
   destruct (preset_of i nd) eqn:Ep.
-  - (* the state argument is the functor of the trained sibling *)
-    assert (Hder : derived nodes i nd = true).
-    { unfold C01Inv.preset_of in Ep. rewrite (w_nopers a nodes wf i nd Hn) in Ep. simpl in Ep. apply andb_prop in Ep. exact (proj2 Ep). }
-    apply (derived_spec nodes i nd Hn) in Hder. destruct Hder as [_ [k [ndk [Hne [Hnk [Hg Htk]]]]]].
-    destruct (fun_block k ndk Hnk) as [Fk [HFk [Hok _]]].
-    assert (Hkg : assoc (KG (ngid nd)) (index T) = Some Fk).
-    { apply (block_instr Fk (fkeys k ndk) (KG (ngid nd)) HFk). unfold fkeys, strain. rewrite Htk, (w_train_stateful a nodes wf k ndk Hnk Htk). simpl. right. left. rewrite Hg. reflexivity. }
-    exists [Fk], iargs. split; [simpl; rewrite Hkg; simpl; rewrite Hti; reflexivity|]. split; [|exact Hfi].
-    exists k, ndk, Fk. repeat split; auto. exists ndk. auto.
-  - exists [], iargs. split; [simpl; rewrite Hti; reflexivity|]. split; [reflexivity|exact Hfi].
+  - destruct Hsks as [sk [-> Hsk]]. destruct (resolve_state i nd sk Hn Ep Hsk) as [x [Hx Hsx]].
+    exists [x], iargs. split; [simpl; rewrite Hx; simpl; rewrite Hti; reflexivity|]. split; [eauto|exact Hfi].
+  - subst sks. exists [], iargs. split; [simpl; rewrite Hti; reflexivity|]. split; [reflexivity|exact Hfi].
 Qed.
 
-Lemma fblock_get i nd c I : In i S -> nth_error nodes i = Some nd -> arow T (KF c) = [Some (KU i)] ->
+Lemma fblock_unary i nd c I : nth_error nodes i = Some nd -> arow T (KF c) = [Some (KU i)] ->
   exists Fi, fblock (I, [KF c]) = Some (I, [Fi]) /\ fun_of i Fi.
 Proof.
-  intros _ Hn Hr. destruct (fun_block i nd Hn) as [Fi [HFi [Hoi Hati]]]. exists Fi. split; [|exists nd; auto].
-  unfold fblock. simpl. rewrite (linkage_getter c i Hr). simpl. unfold instr_at in Hati. rewrite Hati. reflexivity.
+  intros Hn Hr. destruct (fun_block i nd Hn) as [Fi [HFi [Hoi Hati]]]. exists Fi. split; [|exists nd; auto].
+  unfold fblock. simpl. rewrite linkage_nonku by (intros j; discriminate). rewrite Hr. simpl. unfold instr_at in Hati. rewrite Hati. reflexivity.
+Qed.
+
+Lemma fblock_load I k : arow T k = [] -> (forall j, k <> KU j) -> fblock (I, [k]) = Some (I, []).
+Proof. intros Hr Hk. unfold fblock. simpl. rewrite (linkage_nonku k Hk), Hr. reflexivity. Qed.
+
+Lemma pers_trainer_offset l k ndk off gt : a = Some l -> nth_error l off = Some gt -> nth_error nodes k = Some ndk ->
+  is_train ndk = true -> ngid ndk = fst gt -> strain ndk && pers ndk = true /\ offset a (ngid ndk) = Some off.
+Proof.
+  intros Hl Hgt Hnk Htk Hg. pose proof (offset_of_nth l (w_assets a nodes wf l Hl) off gt Hgt) as Ho.
+  unfold strain, C01Inv.pers, persistent, offset. rewrite Htk, (w_train_stateful a nodes wf k ndk Hnk Htk), Hl, Hg, Ho. auto.
+Qed.
+
+Lemma fblock_comm c C : In (C, [KF c]) B -> committer T = Some (KF c) ->
+  exists dargs l, fblock (C, [KF c]) = Some (C, dargs) /\ a = Some l /\ Forall2 dres dargs l.
+Proof.
+  intros HC Hck. destruct (v_pers _ _ _ _ _ _ _ _ H) as [P1 P2 P3 PC P4].
+  destruct (PC _ Hck) as [i0 [nd0 [_ [Hn0 Hsp0]]]].
+  assert (Hpa : persistent a (ngid nd0) = true) by (apply andb_prop in Hsp0; destruct Hsp0 as [_ X]; unfold C01Inv.pers in X; apply andb_prop in X; tauto).
+  assert (Ht0 : is_train nd0 = true) by (apply andb_prop in Hsp0; apply strain_train; tauto).
+  assert (Hl : exists l, a = Some l) by (unfold persistent in Hpa; destruct a as [l|]; [eauto|discriminate]).
+  destruct Hl as [l Hl]. destruct (P4 (KF c) l Hck Hl) as [Hlen Hrow].
+  assert (Htr : forall gt, In gt l -> exists k ndk, nth_error nodes k = Some ndk /\ is_train ndk = true /\ ngid ndk = fst gt).
+  { destruct (Hcm l Hl) as [X|X]; [exact X|]. exfalso. unfold persistent in Hpa. rewrite Hl in Hpa.
+    destruct (offset_of (ngid nd0) l) as [o|] eqn:Eo; [|discriminate]. destruct (offset_of_in _ _ _ Eo) as [gt [Hgt Hg]].
+    exact (X gt i0 nd0 (nth_error_In _ _ Hgt) Hn0 Ht0 (eq_sym Hg)). }
+  assert (Hent : forall off gt, nth_error l off = Some gt -> exists kd, aget T (KF c) off = Some kd
+             /\ exists k ndk, nth_error nodes k = Some ndk /\ is_train ndk = true /\ ngid ndk = fst gt /\ dumper_of T B k kd).
+  { intros off gt Hgt. destruct (Htr gt (nth_error_In _ _ Hgt)) as [k [ndk [Hnk [Htk Hg]]]].
+    destruct (pers_trainer_offset l k ndk off gt Hl Hgt Hnk Htk Hg) as [Hsp Ho].
+    destruct (proj1 (Hrow off) k ndk (Hall k ndk Hnk) Hnk Hsp Ho) as [kd [Hkd Hd]]. exists kd. split; [exact Hkd|]. exists k, ndk. auto. }
+  destruct (full_row (arow T (KF c)) (List.length l) Hlen) as [dks [Hdks Hdl]].
+  { intros q Hq. destruct (nth_error l q) as [gt|] eqn:E; [|apply nth_error_None in E; lia]. destruct (Hent q gt E) as [kd [Hkd _]]. exists kd. exact Hkd. }
+  destruct (traverse_pointwise (fun k => assoc k (index T)) dres dks l Hdl) as [dargs [Htd Hfd]].
+  { intros q kd gt Hkd Hgt. destruct (Hent q gt Hgt) as [kd' [Hkd' [k [ndk [Hnk [Htk [Hg [cd [D [-> [HD [HDo HDr]]]]]]]]]]]].
+    assert (kd = KF cd).
+    { unfold aget in Hkd'. rewrite Hdks in Hkd'. assert (Hq : q < List.length dks) by (apply nth_error_Some; rewrite Hkd; discriminate).
+      rewrite (nth_indep _ None (Some (KU 0))) in Hkd' by (rewrite map_length; exact Hq). rewrite map_nth in Hkd'. injection Hkd' as <-.
+      apply nth_error_nth with (d := KU 0) in Hkd. congruence. } subst kd.
+    destruct (fun_block k ndk Hnk) as [Fk [HFk [Hok _]]].
+    exists D. split; [apply (block_instr D [KF cd]); [exact HD|left; reflexivity]|]. split; [exact HDo|].
+    exists k, ndk, Fk, cd. repeat split; auto. exists ndk. auto. }
+  exists dargs, l. split; [|split; [exact Hl|exact Hfd]].
+  unfold fblock. simpl. rewrite linkage_nonku by (intros j; discriminate). rewrite Hdks, traverse_resolve, Htd. reflexivity.
 Qed.
 
 Lemma fblock_ok I ks : In (I, ks) B -> exists args, fblock (I, ks) = Some (I, args).
 Proof.
-  intros Hb. destruct (v_kinds _ _ _ _ _ _ H I ks Hb) as [i nd I0 Hi Hn Ho|i nd p c I0 Hi Hn Ht Hz Hp Ho Hr].
+  intros Hb. destruct (v_kinds _ _ _ _ _ _ _ _ H I ks Hb) as [i nd I0 Hi Hn Ho|i nd p c I0 Hi Hn Ht Hz Hp Ho Hr|g k I0 Ho Hp Hr Hk|i nd c I0 Hn Hsp Ho Hr|c I0 Ho Hck].
   - destruct (fblock_fun i nd I0 Hn Hb) as [sa [ia [E _]]]. eauto.
-  - destruct (fblock_get i nd c I0 Hi Hn Hr) as [Fi [E _]]. eauto.
+  - destruct (fblock_unary i nd c I0 Hn Hr) as [Fi [E _]]. eauto.
+  - exists []. apply fblock_load; [exact Hr|]. intros j E. subst k. destruct Hk as [X|[c X]]; discriminate.
+  - destruct (fblock_unary i nd c I0 Hn Hr) as [Fi [E _]]. eauto.
+  - destruct (fblock_comm c I0 Hb Hck) as [dargs [l [E _]]]. eauto.
 Qed.
 
 (* ---- the emitted list ------------------------------------------------------------------------------------------ *)
@@ -358,7 +527,7 @@ Proof.
   assert (elem_intro : forall I ks, In (I, ks) B -> nonstub (I, ks) = true -> exists args, In (I, args) L /\ fblock (I, ks) = Some (I, args)).
   { intros I ks Hb Hn. destruct (Forall2_in_l _ _ _ (I, ks) HF) as [[I' args] [Hin E]]; [apply filter_In; auto|].
     pose proof (Hfst I ks _ E) as X. simpl in X. subst I'. exists args. auto. }
-  assert (fun_nonstub : forall F ks, In (F, ks) B -> is_getter F = false -> nonstub (F, ks) = true).
+  assert (plain_nonstub : forall F ks, In (F, ks) B -> is_getter F = false -> nonstub (F, ks) = true).
   { intros F ks Hb Hg. unfold nonstub. apply negb_true_iff. apply not_true_iff_false. intros X. apply existsb_exists in X.
     destruct X as [s [Hs E]]. apply Nat.eqb_eq in E. simpl in E. destruct (Hstub s Hs) as [Hgs [k [_ Hk]]].
     destruct (instr_block k s Hk) as [ks' [Hb' _]]. pose proof (same_id_same_block s ks' F ks Hb' Hb E) as Y. injection Y as -> _. congruence. }
@@ -367,53 +536,108 @@ Proof.
     destruct X as [s [Hs E]]. apply Nat.eqb_eq in E. simpl in E. destruct (Hstub s Hs) as [_ [k [Hklv Hk]]].
     destruct (instr_block k s Hk) as [ks' [Hb' Hkin]]. pose proof (same_id_same_block s ks' G [KF c] Hb' Hb E) as Y. injection Y as -> ->.
     destruct Hkin as [<-|[]]. apply (proj2 (Hleaf _ Hklv)). exact (arow_parent k' (KF c) Hused). }
+  assert (plain_in : forall F ks, In (F, ks) B -> is_getter F = false -> exists args, In (F, args) L /\ fblock (F, ks) = Some (F, args)).
+  { intros F ks Hb Hg. exact (elem_intro F ks Hb (plain_nonstub F ks Hb Hg)). }
   assert (fun_isF : forall j F, fun_of j F -> isF L j F).
   { intros j F [nd [Hn [Hb Ho]]]. split.
-    - destruct (elem_intro F (fkeys j nd) Hb) as [args [Hin _]]; [apply fun_nonstub; [exact Hb|unfold is_getter; rewrite Ho; reflexivity]|]. eauto.
+    - destruct (plain_in F (fkeys j nd) Hb) as [args [Hin _]]; [unfold is_getter; rewrite Ho; reflexivity|]. eauto.
     - unfold C01Inv.fop in Ho. eauto. }
   assert (isF_fun : forall j F, isF L j F -> fun_of j F).
   { intros j F [[args Hin] [tr [pr Ho]]]. destruct (elem_inv F args Hin) as [ks [Hb _]].
-    destruct (v_kinds _ _ _ _ _ _ H F ks Hb) as [i nd I0 Hi Hn Ho'|i nd p c I0 Hi Hn Ht Hz Hp Ho' Hr].
-    - assert (j = i) by (rewrite Ho in Ho'; unfold C01Inv.fop in Ho'; injection Ho'; auto). subst j.
-      exists nd. split; [exact Hn|]. split; [exact Hb|exact Ho'].
-    - rewrite Ho in Ho'. discriminate. }
+    destruct (v_kinds _ _ _ _ _ _ _ _ H F ks Hb) as [i nd I0 Hi Hn Ho'|i nd p c I0 Hi Hn Ht Hz Hp Ho' Hr|g k I0 Ho' Hp Hr Hk|i nd c I0 Hn Hsp Ho' Hr|c I0 Ho' Hck];
+      try (rewrite Ho in Ho'; discriminate).
+    assert (j = i) by (rewrite Ho in Ho'; unfold C01Inv.fop in Ho'; injection Ho'; auto). subst j.
+    exists nd. split; [exact Hn|]. split; [exact Hb|exact Ho']. }
+  assert (unary_in : forall d cd k ndk, In (d, [KF cd]) B -> is_getter d = false \/ (exists k', In (Some (KF cd)) (arow T k')) ->
+            nth_error nodes k = Some ndk -> arow T (KF cd) = [Some (KU k)] -> forall Fk, fun_of k Fk -> In (d, [Fk]) L).
+  { intros d cd k ndk Hb Hns Hnk Hr Fk HFk.
+    assert (Hn' : nonstub (d, [KF cd]) = true) by (destruct Hns as [X|X]; [apply plain_nonstub; assumption|apply getter_nonstub; assumption]).
+    destruct (elem_intro d [KF cd] Hb Hn') as [args [Hin E]].
+    destruct (fblock_unary k ndk cd d Hnk Hr) as [Fi [E' HFi]]. rewrite E in E'. injection E' as ->.
+    rewrite (fun_of_unique k Fk Fi HFk HFi). exact Hin. }
   assert (rsrc_deliv : forall x ip, rsrc x ip -> deliv nodes L x ip).
   { intros x ip [ndj [Fj [Hnj [HFj Hx]]]]. exists ndj, Fj. split; [exact Hnj|]. split; [apply fun_isF; exact HFj|].
-    destruct Hx as [Hx|[Hz [Ho [c [Hb [Hr [k' [_ Hused]]]]]]]]; [left; exact Hx|right]. split; [exact Hz|]. split; [exact Ho|].
-    destruct (elem_intro x [KF c] Hb (getter_nonstub x c Hb (ex_intro _ k' Hused))) as [args [Hin E]].
-    destruct (fblock_get (fst ip) ndj c x (Hall _ _ Hnj) Hnj Hr) as [Fi [E' HFi]]. rewrite E in E'. injection E' as ->.
-    rewrite (fun_of_unique (fst ip) Fj Fi HFj HFi). exact Hin. }
+    destruct Hx as [Hx|[Hz [Ho [c [Hb [Hr Hused]]]]]]; [left; exact Hx|right]. split; [exact Hz|]. split; [exact Ho|].
+    exact (unary_in x c (fst ip) ndj Hb (or_intror Hused) Hnj Hr Fj HFj). }
+  assert (sres_ok : forall i nd x, sres i nd x -> state_ok a nodes L i nd x).
+  { intros i nd x [[k [ndk [Hnk [Htk [Hg [Hne HFk]]]]]]|[Hno [Hp [Ho [kx [Hb [Hr Hk]]]]]]].
+    - left. exists k, ndk. repeat split; auto; apply (fun_isF k x HFk).
+    - right. split; [exact Hno|]. split; [exact Hp|]. split; [exact Ho|].
+      destruct (plain_in x [kx] Hb) as [args [Hin E]]; [unfold is_getter; rewrite Ho; reflexivity|].
+      rewrite (fblock_load x kx Hr Hk) in E. injection E as <-. exact Hin. }
+  assert (dres_ok : forall d gt, dres d gt -> dump_ok nodes L d gt).
+  { intros d gt [Ho [k [ndk [Fk [cd [Hb [Hr [Hnk [Htk [Hg HFk]]]]]]]]]]. split; [exact Ho|]. exists k, ndk, Fk.
+    split; [apply (unary_in d cd k ndk Hb); [left; unfold is_getter; rewrite Ho; reflexivity|exact Hnk|exact Hr|exact HFk]|].
+    repeat split; auto; apply (fun_isF k Fk HFk). }
   exists L. split; [exact Hsym|]. constructor.
   - (* l_nodup *)
     assert (E : map sid L = map bid (filter nonstub B)).
     { clear -HF Hfst. induction HF as [|[I ks] s l r Hs HF' IH]; [reflexivity|]. simpl. rewrite IH. f_equal.
       unfold sid, bid. rewrite (Hfst I ks s Hs). reflexivity. }
-    rewrite E. apply nodup_map_filter. exact (v_ids _ _ _ _ _ _ H).
+    rewrite E. apply nodup_map_filter. exact (v_ids _ _ _ _ _ _ _ _ H).
   - (* l_closed *)
     intros I args x Hin Hx. destruct (elem_inv I args Hin) as [ks [Hb [_ E]]].
-    assert (Hxf : (exists j, fun_of j x) \/ (exists ip, rsrc x ip)).
-    { destruct (v_kinds _ _ _ _ _ _ H I ks Hb) as [i nd I0 Hi Hn Ho|i nd p c I0 Hi Hn Ht Hz Hp Ho Hr].
-      - destruct (fblock_fun i nd I0 Hn Hb) as [sa [ia [E' [Hs Hd]]]]. rewrite E in E'. injection E' as ->.
-        apply in_app_or in Hx. destruct Hx as [Hx|Hx].
-        + destruct (preset_of i nd); [|subst sa; destruct Hx]. destruct Hs as [k [ndk [Fk [-> [_ [_ [_ [_ HFk]]]]]]]]. destruct Hx as [<-|[]]. left. eauto.
-        + destruct (Forall2_in_l _ _ _ x Hd Hx) as [ip [_ Hr]]. right. eauto.
-      - destruct (fblock_get i nd c I0 Hi Hn Hr) as [Fi [E' HFi]]. rewrite E in E'. injection E' as ->. destruct Hx as [<-|[]]. left. eauto. }
-    destruct Hxf as [[j HFx]|[ip Hr]].
-    + destruct (fun_isF j x HFx) as [[xs Hxs] _]. eauto.
-    + destruct (rsrc_deliv x ip Hr) as [ndj [Fj [_ [[[xs Hxs] _] [[_ ->]|[_ [_ Hin']]]]]]]; eauto.
-  - (* l_ops *)
-    intros I args Hin. destruct (elem_inv I args Hin) as [ks [Hb _]].
-    destruct (v_kinds _ _ _ _ _ _ H I ks Hb) as [i nd I0 Hi Hn Ho|i nd p c I0 Hi Hn Ht Hz Hp Ho Hr]; [left; unfold C01Inv.fop in Ho; eauto|right; eauto].
+    destruct (v_kinds _ _ _ _ _ _ _ _ H I ks Hb) as [i nd I0 Hi Hn Ho|i nd p c I0 Hi Hn Ht Hz Hp Ho Hr|g k I0 Ho Hp Hr Hk|i nd c I0 Hn Hsp Ho Hr|c I0 Ho Hck].
+    + destruct (fblock_fun i nd I0 Hn Hb) as [sa [ia [E' [Hs Hd]]]]. rewrite E in E'. injection E' as ->.
+      apply in_app_or in Hx. destruct Hx as [Hx|Hx].
+      * destruct (preset_of i nd); [|subst sa; destruct Hx]. destruct Hs as [y [-> Hy]]. destruct Hx as [<-|[]].
+        destruct (sres_ok i nd y Hy) as [[k [ndk [_ [_ [_ [_ [[xs Hxs] _]]]]]]]|[_ [_ [_ Hxs]]]]; eauto.
+      * destruct (Forall2_in_l _ _ _ x Hd Hx) as [ip [_ Hr]].
+        destruct (rsrc_deliv x ip Hr) as [ndj [Fj [_ [[[xs Hxs] _] [[_ ->]|[_ [_ Hin']]]]]]]; eauto.
+    + destruct (fblock_unary i nd c I0 Hn Hr) as [Fi [E' HFi]]. rewrite E in E'. injection E' as ->. destruct Hx as [E2|[]]. subst x.
+      destruct (fun_isF i Fi HFi) as [[xs Hxs] _]. eauto.
+    + rewrite fblock_load in E; [injection E as <-; destruct Hx|exact Hr|]. intros j X. subst k. destruct Hk as [Y|[c Y]]; discriminate.
+    + destruct (fblock_unary i nd c I0 Hn Hr) as [Fi [E' HFi]]. rewrite E in E'. injection E' as ->. destruct Hx as [E2|[]]. subst x.
+      destruct (fun_isF i Fi HFi) as [[xs Hxs] _]. eauto.
+    + destruct (fblock_comm c I0 Hb Hck) as [dargs [l [E' [_ Hfd]]]]. rewrite E in E'. injection E' as ->.
+      destruct (Forall2_in_l _ _ _ x Hfd Hx) as [gt [_ Hd]]. destruct (dres_ok x gt Hd) as [_ [k [ndk [Fk [Hxin _]]]]]. eauto.
   - (* l_unique *)
     intros j x y Hx Hy. exact (fun_of_unique j x y (isF_fun j x Hx) (isF_fun j y Hy)).
   - (* l_node *)
     intros i nd Hn. destruct (fun_block i nd Hn) as [F [Hb [Ho _]]].
     destruct (fblock_fun i nd F Hn Hb) as [sa [ia [E [Hs Hd]]]].
-    destruct (elem_intro F (fkeys i nd) Hb) as [args [Hin E']]; [apply fun_nonstub; [exact Hb|unfold is_getter; rewrite Ho; reflexivity]|].
+    destruct (plain_in F (fkeys i nd) Hb) as [args [Hin E']]; [unfold is_getter; rewrite Ho; reflexivity|].
     rewrite E in E'. injection E' as <-. exists F, sa, ia. split; [exact Hin|]. split; [exact Ho|]. split.
-    + destruct (preset_of i nd); [|exact Hs]. destruct Hs as [k [ndk [Fk [-> [Hnk [Htk [Hg [Hne HFk]]]]]]]].
-      exists k, ndk, Fk. repeat split; auto; apply (fun_isF k Fk HFk).
+    + destruct (preset_of i nd); [|exact Hs]. destruct Hs as [x [-> Hx]]. exists x. split; [reflexivity|exact (sres_ok i nd x Hx)].
     + exact (Forall2_impl _ _ _ _ rsrc_deliv Hd).
+  - (* l_commit *)
+    unfold commit_ok. assert (G : forall a0, a = a0 ->
+      match a0 with
+      | None => forall I args, In (I, args) L -> (exists j t p, iop I = OFunctor j t p) \/ (exists p, iop I = OGetter p)
+      | Some l =>
+          ((forall I args, In (I, args) L -> iop I <> OCommitter)
+           /\ forall i nd, nth_error nodes i = Some nd -> is_train nd && persistent a0 (ngid nd) = false)
+          \/ (exists C dargs, In (C, dargs) L /\ iop C = OCommitter
+                /\ (forall C' args', In (C', args') L -> iop C' = OCommitter -> C' = C)
+                /\ Forall2 (dump_ok nodes L) dargs l)
+      end); [|exact (G a eq_refl)].
+    intros a0 Ea. destruct a0 as [l|].
+    + destruct (committer T) as [ck|] eqn:Eck.
+      * right. destruct (p_some _ _ _ _ _ _ (v_pers _ _ _ _ _ _ _ _ H) ck Eck) as [c [C [-> [HC HCo]]]].
+        destruct (fblock_comm c C HC Eck) as [dargs [l' [E [Hl' Hfd]]]]. assert (l' = l) by congruence. subst l'.
+        destruct (plain_in C [KF c] HC) as [args [Hin E']]; [unfold is_getter; rewrite HCo; reflexivity|]. rewrite E in E'. injection E' as <-.
+        exists C, dargs. split; [exact Hin|]. split; [exact HCo|]. split; [|exact (Forall2_impl _ _ _ _ dres_ok Hfd)].
+        intros C' args' Hin' Ho'. destruct (elem_inv C' args' Hin') as [ks [Hb' _]].
+        destruct (v_kinds _ _ _ _ _ _ _ _ H C' ks Hb') as [i nd I0 Hi Hn Ho|i nd p c' I0 Hi Hn Ht Hz Hp Ho Hr|g k I0 Ho Hp Hr Hk|i nd c' I0 Hn Hsp Ho Hr|c' I0 Ho Hck'];
+          try (rewrite Ho' in Ho; discriminate); try (unfold C01Inv.fop in Ho; rewrite Ho' in Ho; discriminate).
+        rewrite Eck in Hck'. injection Hck' as E3. subst c'. exact (block_key_unique I0 [KF c] C [KF c] (KF c) Hb' HC (or_introl eq_refl) (or_introl eq_refl)).
+      * left. split.
+        -- intros I args Hin Ho. destruct (elem_inv I args Hin) as [ks [Hb _]].
+           destruct (v_kinds _ _ _ _ _ _ _ _ H I ks Hb) as [i nd I0 Hi Hn Ho'|i nd p c' I0 Hi Hn Ht Hz Hp Ho' Hr|g k I0 Ho' Hp Hr Hk|i nd c' I0 Hn Hsp Ho' Hr|c' I0 Ho' Hck'];
+             try (rewrite Ho in Ho'; discriminate); try (unfold C01Inv.fop in Ho'; rewrite Ho in Ho'; discriminate).
+           rewrite Eck in Hck'. discriminate.
+        -- intros i nd Hn. destruct (is_train nd && persistent (Some l) (ngid nd)) eqn:E; [|reflexivity]. exfalso.
+           apply andb_prop in E. destruct E as [Et Ep].
+           pose proof (p_none _ _ _ _ _ _ (v_pers _ _ _ _ _ _ _ _ H) Eck i nd (Hall i nd Hn) Hn) as X.
+           unfold strain, C01Inv.pers in X. rewrite Et, (w_train_stateful a nodes wf i nd Hn Et), Ea, Ep in X. discriminate.
+    + intros I args Hin. destruct (elem_inv I args Hin) as [ks [Hb _]].
+      destruct (v_kinds _ _ _ _ _ _ _ _ H I ks Hb) as [i nd I0 Hi Hn Ho|i nd p c' I0 Hi Hn Ht Hz Hp Ho Hr|g k I0 Ho Hp Hr Hk|i nd c' I0 Hn Hsp Ho Hr|c' I0 Ho Hck'].
+      * left. unfold C01Inv.fop in Ho. eauto.
+      * right. eauto.
+      * exfalso. rewrite Ea in Hp. discriminate.
+      * exfalso. apply andb_prop in Hsp. destruct Hsp as [_ Hp]. unfold C01Inv.pers in Hp. rewrite Ea in Hp. apply andb_prop in Hp. destruct Hp as [_ Hp]. discriminate.
+      * exfalso. destruct (p_conv _ _ _ _ _ _ (v_pers _ _ _ _ _ _ _ _ H) _ Hck') as [i0 [nd0 [_ [_ Hsp]]]].
+        apply andb_prop in Hsp. destruct Hsp as [_ Hp]. unfold C01Inv.pers in Hp. rewrite Ea in Hp. apply andb_prop in Hp. destruct Hp as [_ Hp]. discriminate.
 Qed.
 
 End Emit.
